@@ -40,7 +40,7 @@ META = {
                 'short-circuit, skip-and-continue), updates previous_status after each run and returns the results in order; and (U-TOK) that the list '
                 'never contains an empty command (a blank tail after the last operator is not a pipeline), so the last pipeline run decides the status.',
         'note': 'run_proc is external (assumed to run the pipeline once and return its status); line_to_cmds is uninterpreted here; '
-                'string equality / clone shims assumed (std); main.rs exit-with-previous_status lines read, not verified.',
+                'string equality / clone shims assumed (std); main.rs exit-with-previous_status lines read, not verified; `$?` is the leftmost-reference rule of expand_one_env (U-EXP2); the line is cut only at a `#` that starts a word; known finding (bounded): on a script line an escaped list operator loses its backslash.',
     },
 }
 
@@ -71,7 +71,7 @@ META['C01'] = {
             'state invariants: spaces are skipped only between words, a pending literal tag belongs to the word in progress, and the step that consumes a backslash-escaped '
             'operator / expansion character (> < & * ~ { ` $ |) tags the word as literal; expand_env skips literal- and backslash-tagged words; argv at exec is the token texts in order.',
     'note': 'the parse_line invariants are stated up to the first concatenated quoting ("a"\'b\', a"b"), which is not one of the property\'s argument forms (ghost scope flag); a full '
-            'functional specification of parse_line is not claimed; the bounded engine enumerates quoted / escaped argument lists through the real binary.',
+            'functional specification of parse_line is not claimed; two invariants hold also after concatenated quoting: the tag of an escaped character ends with its word, and nothing is appended to a closed backquoted command; the bounded engine enumerates quoted / escaped argument lists through the real binary; known finding (bounded): on a script line an escaped blank is lost.',
 }
 META['C13'] = {
     'text': 'The same tag-honouring contracts as C01 decide the double-quoted half: a token that still carries a quote tag after expansion is never split at "|", '
@@ -80,8 +80,8 @@ META['C13'] = {
             'tag-honouring contracts apply to it.',
     'note': 'only the untagged NAME=value words the line STARTS with are exempt (in_assignment_prefix, verified against assign_prefix: exactly the words that are taken off the '
             'line as assignments before operators are looked for; drain_env_tokens itself is external); a NAME=value shaped argument is tagged like any other word; '
-            'a word that already contained an operator character before '
-            'expansion is not tagged; has_operator_char is verified against its spec; glob::glob and the regexes are uninterpreted.',
+            'a word in which a redirection is WRITTEN (outside its command substitutions: has_written_redirection verified against written_redir) is not tagged; '
+            'has_operator_char is verified against its spec; glob::glob and the regexes are uninterpreted; known finding (bounded): a value or file name that spells a substitution is executed.',
 }
 
 META['C12'] = {
@@ -138,7 +138,7 @@ META['C04'] = {
     'note': 'regex captures of redirection spellings are uninterpreted (triples as produced), but the pending state of an operator whose target is the next word is proved to be that of '
             'the previous word; builtins\' own descriptor computation (_get_std_fds and the print helpers) is under contract in U-BFD; open(2) semantics assumed; '
             'input redirections are taken from left to right (the last one on the line is in effect), `<` / `<<<` may be glued to the word in front; for builtins: an unreadable `<` file or unopenable target fails the '
-            'builtin without running it, redirected output is not captured; no finding is listed.',
+            'builtin without running it, redirected output is not captured; the here-string is the word followed by one newline; known finding (bounded): a word with two redirection operators glued together (`>a>b`) is dropped.',
 }
 META['C08'] = {
     'text': 'Verus proves, for every pipeline length, every redirection list and every choice of descriptor numbers by the kernel, that a spawned program starts with exactly {0,1,2} '
@@ -160,13 +160,13 @@ META['C09'] = {
 
 META['C15'] = {
     'text': 'Verus proves that the positional-parameter pass replaces every $n / ${n} / $@ reference of a word left to right by the corresponding argument (nothing when missing, '
-            'the arguments joined by blanks for $@), keeps the text in between, terminates, never touches single-quoted or backquoted tokens nor any tag; that a function call '
+            'the arguments joined by blanks for $@), keeps the text in between, terminates, never touches single-quoted tokens nor any tag; that a function call '
             'runs its body with the positional parameters [name, words of the call] and that its status is that of the last command the body ran; and for the statement runners '
             '(run_lines, run_exp, run_exp_while, stopped_by_error; U-SCRIPT) that after set -e no statement, loop round or top-level statement is started once the last result is a '
             'failure, whatever kind of statement produced it, and that otherwise every statement of a body is started unless continue / break was met.',
     'note': 'the reference regex is uninterpreted (assumed: anchored, group 3 a proper suffix); the pest parse tree is opaque (text, rule and children of a node uninterpreted), '
-            'run_exp_if / run_exp_for / run_exp_test_br are external (run_exp_for stops its rounds by the same test: bounded cases only); function extraction, source and exit '
-            'are covered by the bounded script cases only (see C14).',
+            'run_exp_if / run_exp_for / run_exp_test_br / expand_line_to_toknes are under contract too (branches in order up to the first that passes; one round per word in order; the test results are kept; positional parameters before the other expansions), '
+            'as are the exit and source builtins (U-BSH) and Shell::set_func; function extraction in run_script is covered by the bounded script cases only (see C14); known finding (bounded): an argument is pasted into the line as text.',
 }
 
 META['C07'] = {
